@@ -49,8 +49,8 @@ def gen_cases(tier, seed):
     for entry in ENTRY:
         for wt in ("rhf", "uhf"):
             for rep in range(1 if q else 3):
-                cases.append({"type": "entry", "entry": entry, "wt": wt, "shape": [int(rng.integers(2, 4)), int(rng.integers(1, 3)), int(rng.integers(1, 3))],
-                              "calls": 3, "dt": 0.05, "s": int(rng.integers(1 << 30)), "group": "en-%s-%s-%d" % (entry, wt, rep), "cost": 30})
+                cases.append({"type": "entry", "entry": entry, "wt": wt, "shape": [int(rng.integers(3, 6)), int(rng.integers(1, 3)), int(rng.integers(1, 3))],
+                              "calls": 4, "dt": 0.05, "s": int(rng.integers(1 << 30)), "group": "en-%s-%s-%d" % (entry, wt, rep), "cost": 30})
     drv = [(None, True, True), ("forward", True, True), ("forward", False, True), ("forward", True, False), ("forward", False, False),
            ("reverse", True, True), ("reverse", False, True), ("reverse", False, False), ("reverse", True, False)]
     if not q:
@@ -239,9 +239,10 @@ def run_entry(case):
     hd = ham.build_measurement_intermediates(hd_raw, trial, wd)
     hd = ham.build_propagation_intermediates(hd, prop, trial, wd)
     S = {"trial": trial, "wave_data": wd, "nelec": ne, "norb": norb}
-    w0 = afqmc.noisy_walkers(rng, S, nw, noise=0.1, walker_type=wt)
+    w0 = afqmc.noisy_walkers(rng, S, nw, noise=0.5, walker_type=wt)
     pd = prop.init_prop_data(trial, wd, hd, w0)
     pd["key"] = random.PRNGKey(case["s"] % 65521)
+    pd["weights"] = jnp.array(np.random.default_rng(case["s"] + 3).uniform(0.1, 3.0, size=nw))   # mid-run population: unequal weights
     pd = hooks.seed_overlap(pd)
     smp = sampling.sampler(n_prop_steps=case["shape"][0], n_ene_blocks=case["shape"][1], n_sr_blocks=case["shape"][2], n_blocks=1)
     obs = jnp.array(np.zeros((2, norb, norb)))
@@ -262,9 +263,11 @@ def run_entry(case):
             return {"events": events, "nontrivial": True, "counters": {}}
         nsr = smp.n_sr_blocks if case["entry"] in ("plain", "ad", "ad_norot") else 1
         expected += nsr * smp.n_ene_blocks * smp.n_prop_steps
-        if len(set(np.round(np.asarray(pd["weights"]), 12))) > 1:
-            reordered = True
         pd = _outer(prop, pd, float(e))
+        wl = afqmc.np_walkers(pd["walkers"])
+        w_first = wl if not isinstance(wl, list) else wl[0]
+        if len({tuple(np.round(x.ravel()[:3], 10)) for x in w_first}) < w_first.shape[0]:
+            reordered = True   # the global reconfiguration duplicated (hence dropped) a walker
     incoh, checks = hooks.read_overlap(pd)
     if checks == 0:
         events.append(ev("hook/not-reached", None, key="C08/hook-not-reached", hard=True))
